@@ -29,7 +29,7 @@ RULE = ("texts with non-integers (fractions, exponents, numeric strings, commas 
         "(len==0 chunks first/between/last/alone/repeated, empty C string, calls after success, after error+reset, explicit resets), "
         "random call histories over slices, mutated texts, random chunkings/flags/depths; trees with "
         "finite doubles of every %.17g shape, NaN/Infinity, retained-text doubles x serializer flags x serializer configurations (custom "
-        "double format set globally / per thread / per object, json_object_set_double, resets to the default: a fixed table of 26 formats "
+        "double format set globally / per thread / per object, json_object_set_double, resets to the default: a fixed table of 35 formats, 9 of which snprintf rejects (failing serializations), "
         "x 6 ways + random combinations); numeric strings for "
         "json_object_get_double; concurrent threads (2..6; thread-specific comma next to C, process-wide comma next to uselocale(C)) each "
         "serialising and parsing+re-serialising a private tree, every text compared with the single-threaded C-locale text.  "
@@ -73,6 +73,12 @@ SER_FLAGS = [0, 1, 2, 4, 2 | 4, 1 | 4, 2 | 8, 16, 32 | 2, 1 | 2 | 4 | 16]
 # before the number: the class covered by C14_ser_fmt_locale_indep)
 FORMATS = [b"%.17g", b"%g", b"%G", b"%e", b"%E", b"%f", b"%.0f", b"%.1f", b"%.3f", b"%.15g", b"%.20g", b"%10.3f", b"%-12.4f|", b"%+.2f",
            b"% .3f", b"%#g", b"%#.0f", b"%08.2f", b"%.30f", b"%.120f", b"%a", b"x%.2fy", b"%.3f%%", b"%.1f.5", b"%5.0f", b"%.2e"]
+# formats snprintf REJECTS (width/precision does not fit an int: -1/EOVERFLOW before any argument is read; incomplete
+# specification) or echoes (unknown conversion): the serialization fails (NULL) or prints no number — the FAILING paths of
+# the serializer, which must leave the caller's locale alone like the succeeding ones.  (No format that makes printf read
+# an argument of another type: %d %s %c %*f would print register garbage or crash — caller errors, not covered.)
+FAILING_FORMATS = [b"%.99999999999f", b"%99999999999f", b"%99999999999d", b"%2147483648f", b"%", b"%5", b"%.", b"%y", b"x%.99999999999e"]
+FORMATS += FAILING_FORMATS
 # formats outside that class (a literal ',' of their own / a literal '.' before the number): observed, gated by the flag below
 EXOTIC_FORMATS = [b"x,%.2f", b"%.2f,%%", b"v.%.1f", b"%.1f,%.1f"]
 EXOTIC_FORMAT_IN_SCOPE = False   # see extra_coverage(): adjacent observation `serialize-format-literal-separator`
@@ -146,6 +152,8 @@ def coq_extra():
     STATE["translator"] = dict(ok=ok, message=msg, info={k: (v if not isinstance(v, dict) else dict(v)) for k, v in info.items()},
                                exits=[dict(line=x["line"], kind=x["kind"], after_switch=x["after_switch"], restores=x["restores"],
                                            frees_created=x["frees_created"], path=[locale_exits.coq_ev(p) for p in x["path"]]) for x in exits])
+    for f, ln, name in (info.get("stray") or []):
+        print("TRANSLATOR: %s:%d calls %s() outside json_tokener_parse_ex: a library function other than the parser touches the locale" % (f, ln, name))
     if not ok:
         print("TRANSLATOR: the shape of json_tokener_parse_ex's locale handling is not recognised: %s" % msg)
     else:
@@ -362,7 +370,8 @@ def gen(rng, tier):
         for nthr in (2, 4):
             out.append(("loc M %s %d %d 40 0 %s" % (var, nthr, iters, mt_tree), {"kind": "threads"}))
     for var, nthr, fl, cfg in (("t", 2, 4, "-"), ("g", 4, 2, "-"), ("t", 4, 0, "G" + hx(b"%.3f")), ("g", 2, 0, "O" + hx(b"%g")),
-                               ("x", 6, 4, "G" + hx(b"%.17g")), ("t", 3, 0, "O" + hx(b"%e") + ",D")):
+                               ("x", 6, 4, "G" + hx(b"%.17g")), ("t", 3, 0, "O" + hx(b"%e") + ",D"),
+                               ("t", 2, 0, "G" + hx(b"%.99999999999f")), ("g", 4, 0, "O" + hx(b"%"))):
         out.append(("loc M %s %d %d 40 %d %s %s" % (var, nthr, iters, fl, mt_tree, cfg), {"kind": "threads-format"}))
     # 4. numeric strings through json_object_get_double
     for s in NUMERIC_STRINGS:
@@ -727,7 +736,8 @@ def search(rng, broken_lines):
 def extra_coverage():
     tr = STATE["translator"] or {}
     return dict(translator=dict(recognised=tr.get("ok"), message=tr.get("message"), exits=tr.get("exits"),
-                                variant=(tr.get("info") or {}).get("variant"), assumptions=(tr.get("info") or {}).get("assumptions")),
+                                variant=(tr.get("info") or {}).get("variant"),
+                                locale_calls_outside_parse_ex=[list(x) for x in ((tr.get("info") or {}).get("stray") or [])], assumptions=(tr.get("info") or {}).get("assumptions")),
                 parser_outcome_classes_seen=dict(sorted(STATE["outcomes"].items())),
                 cases_with_comma_locale_verified_in_effect=STATE["sep_checked"],
                 snprintf_oracle_hypothesis_checked_on=STATE["oracle_checked"],
